@@ -13,6 +13,8 @@ package mount
 
 //@ func (fs *FS) mountPoint(path string) (m hackpadfs.FS, mountPoint string, subPath string)
 //@   props C06
+//@   deterministic
+//@   pure
 //@   requires fs != nil
 //@   range 1 over fs.mounts visited V key k
 //@   range 1 use vpBasic(k)
@@ -27,6 +29,7 @@ package mount
 //@   ensures "selected" (mountPoint == "." && m == fs.rootFS && forall(k, dom(fs.mounts), !cand(k, path))) ||
 //@                      (in(mountPoint, dom(fs.mounts)) && cand(mountPoint, path) && m == fs.mounts[mountPoint])
 //@   ensures "remainder" implies(VP(path), VP(subPath) && pjoin(mountPoint, subPath) == path)
+//@   ensures "nonnil" m != nil
 //@   nopanic
 
 //@ func (fs *FS) Mount(path string) (mount hackpadfs.FS, subPath string)
@@ -50,4 +53,92 @@ package mount
 //@                       err == old(ret("hackpadfs.(FS).Open", 1, ret("mount.(*FS).Mount", 0, fs, name), ret("mount.(*FS).Mount", 1, fs, name))) &&
 //@                       world() == old(worldAfter("hackpadfs.(FS).Open", ret("mount.(*FS).Mount", 0, fs, name), ret("mount.(*FS).Mount", 1, fs, name)))
 //@   ensures "gate" implies(!VP(name), errIs(err, hackpadfs.ErrInvalid) && world() == old(world()))
+//@   nopanic
+
+//@ spec amParent(fs *FS, p string) := ret("mount.(*FS).Mount", 0, fs, pdir(p))
+//@ spec amSub(fs *FS, p string) := pathJoin(ret("mount.(*FS).Mount", 1, fs, pdir(p)), pbase(p))
+//@ spec amFile(fs *FS, p string) := ret("hackpadfs.(FS).Open", 0, amParent(fs, p), amSub(fs, p))
+//@ spec amOpenErr(fs *FS, p string) := ret("hackpadfs.(FS).Open", 1, amParent(fs, p), amSub(fs, p))
+//@ spec amW1(fs *FS, p string) := worldAfter("hackpadfs.(FS).Open", amParent(fs, p), amSub(fs, p))
+//@ spec amInfo(fs *FS, p string) := retW("hackpadfs.(File).Stat", 0, amW1(fs, p), amFile(fs, p))
+//@ spec amStatErr(fs *FS, p string) := retW("hackpadfs.(File).Stat", 1, amW1(fs, p), amFile(fs, p))
+//@ spec amIsDir(fs *FS, p string) := retW("hackpadfs.(FileInfo).IsDir", 0, worldAfterW("hackpadfs.(File).Stat", amW1(fs, p), amFile(fs, p)), amInfo(fs, p))
+
+//@ func (fs *FS) addMount(p string, mountFS hackpadfs.FS) (err error)
+//@   props C06
+//@   requires fs != nil && mountFS != nil && !held(fs.mountMu)
+//@   modifies mapOf(fs.mounts)
+//@   ensures "invalid" implies(!VP(p) || p == ".", err == hackpadfs.ErrInvalid)
+//@   ensures "exists" implies(VP(p) && p != "." && old(in(p, dom(fs.mounts))), errIs(err, hackpadfs.ErrExist))
+//@   ensures "table" implies(err == nil, in(p, dom(fs.mounts)) && fs.mounts[p] == mountFS && !old(in(p, dom(fs.mounts))) &&
+//@                     forall(k, string, implies(k != p, in(k, dom(fs.mounts)) == old(in(k, dom(fs.mounts))) && fs.mounts[k] == old(fs.mounts[k]))))
+//@   ensures "fail-unchanged" implies(err != nil, forall(k, string, in(k, dom(fs.mounts)) == old(in(k, dom(fs.mounts))) && fs.mounts[k] == old(fs.mounts[k])))
+//@   ensures "must-be-dir" implies(err == nil, old(amOpenErr(fs, p)) == nil && old(amStatErr(fs, p)) == nil && old(amIsDir(fs, p)))
+//@   ensures "keys-valid" forall(k, dom(fs.mounts), VP(k) && k != "." && fs.mounts[k] != nil)
+//@   nopanic
+
+//@ func (fs *FS) AddMount(path string, mount hackpadfs.FS) (err error)
+//@   props C06 C05
+//@   requires fs != nil && mount != nil && !held(fs.mountMu)
+//@   modifies mapOf(fs.mounts)
+//@   ensures "errtype" implies(err != nil, isPathError(err) && pathOf(err) == path)
+//@   ensures "invalid" implies(!VP(path) || path == ".", errIs(err, hackpadfs.ErrInvalid))
+//@   ensures "exists" implies(VP(path) && path != "." && old(in(path, dom(fs.mounts))), errIs(err, hackpadfs.ErrExist))
+//@   ensures "table" implies(err == nil, in(path, dom(fs.mounts)) && fs.mounts[path] == mount && !old(in(path, dom(fs.mounts))) &&
+//@                     forall(k, string, implies(k != path, in(k, dom(fs.mounts)) == old(in(k, dom(fs.mounts))) && fs.mounts[k] == old(fs.mounts[k]))))
+//@   ensures "fail-unchanged" implies(err != nil, forall(k, string, in(k, dom(fs.mounts)) == old(in(k, dom(fs.mounts))) && fs.mounts[k] == old(fs.mounts[k])))
+//@   nopanic
+
+//@ extern io.Copy(dst io.Writer, src io.Reader) (written int64, err error)
+//@   deterministic
+
+//@ func NewFS(rootFS hackpadfs.FS) (r *FS, err error)
+//@   props C06
+//@   requires rootFS != nil
+//@   ensures "fresh" err == nil && r != nil && fresh(r) && r.rootFS == rootFS && forall(k, string, !in(k, dom(r.mounts))) && !held(r.mountMu)
+//@   nopanic
+
+// Rename: both names are routed independently (mountPoint); what follows is the exact call sequence.
+//@ spec rOM(fs *FS, o string) := ret("mount.(*FS).mountPoint", 0, fs, o)
+//@ spec rOP(fs *FS, o string) := ret("mount.(*FS).mountPoint", 1, fs, o)
+//@ spec rOS(fs *FS, o string) := ret("mount.(*FS).mountPoint", 2, fs, o)
+//@ spec rInfo(fs *FS, o string) := ret("hackpadfs.Stat", 0, rOM(fs, o), rOS(fs, o))
+//@ spec rStatErr(fs *FS, o string) := ret("hackpadfs.Stat", 1, rOM(fs, o), rOS(fs, o))
+//@ spec rW1(fs *FS, o string) := worldAfter("hackpadfs.Stat", rOM(fs, o), rOS(fs, o))
+//@ spec rIsDir(fs *FS, o string) := retW("hackpadfs.(FileInfo).IsDir", 0, rW1(fs, o), rInfo(fs, o))
+//@ spec rSrc(fs *FS, o string) := retW("hackpadfs.(FS).Open", 0, rW1(fs, o), rOM(fs, o), rOS(fs, o))
+//@ spec rSrcErr(fs *FS, o string) := retW("hackpadfs.(FS).Open", 1, rW1(fs, o), rOM(fs, o), rOS(fs, o))
+//@ spec rW2(fs *FS, o string) := worldAfterW("hackpadfs.(FS).Open", rW1(fs, o), rOM(fs, o), rOS(fs, o))
+//@ spec rMode(fs *FS, o string) := retW("hackpadfs.(FileInfo).Mode", 0, rW2(fs, o), rInfo(fs, o))
+//@ spec rDst(fs *FS, o string, n string) := retW("hackpadfs.OpenFile", 0, rW2(fs, o), rOM(fs, n), rOS(fs, n), hackpadfs.FlagWriteOnly|hackpadfs.FlagCreate|hackpadfs.FlagTruncate, rMode(fs, o))
+//@ spec rDstErr(fs *FS, o string, n string) := retW("hackpadfs.OpenFile", 1, rW2(fs, o), rOM(fs, n), rOS(fs, n), hackpadfs.FlagWriteOnly|hackpadfs.FlagCreate|hackpadfs.FlagTruncate, rMode(fs, o))
+//@ spec rW3(fs *FS, o string, n string) := worldAfterW("hackpadfs.OpenFile", rW2(fs, o), rOM(fs, n), rOS(fs, n), hackpadfs.FlagWriteOnly|hackpadfs.FlagCreate|hackpadfs.FlagTruncate, rMode(fs, o))
+//@ spec rCopyErr(fs *FS, o string, n string) := retW("io.Copy", 1, rW3(fs, o, n), rDst(fs, o, n), rSrc(fs, o))
+//@ spec rW4(fs *FS, o string, n string) := worldAfterW("io.Copy", rW3(fs, o, n), rDst(fs, o, n), rSrc(fs, o))
+
+//@ func (fs *FS) Rename(oldname string, newname string) (err error)
+//@   props C06 C05
+//@   requires fs != nil
+//@   opaque mountPoint keep nonnil
+//@   ensures "stat-error" implies(old(rStatErr(fs, oldname)) != nil, isLinkError(err) && oldOf(err) == oldname && newOf(err) == newname &&
+//@                      innerErr(err) == old(rStatErr(fs, oldname)) && world() == old(rW1(fs, oldname)))
+//@   ensures "same-name-file" implies(old(rStatErr(fs, oldname)) == nil && oldname == newname && !old(rIsDir(fs, oldname)), err == nil && world() == old(rW1(fs, oldname)))
+//@   ensures "same-name-dir" implies(old(rStatErr(fs, oldname)) == nil && oldname == newname && old(rIsDir(fs, oldname)),
+//@                      isLinkError(err) && oldOf(err) == oldname && newOf(err) == newname && errIs(err, hackpadfs.ErrExist) && world() == old(rW1(fs, oldname)))
+//@   ensures "same-mount" implies(old(rStatErr(fs, oldname)) == nil && oldname != newname && old(rOP(fs, oldname)) == old(rOP(fs, newname)),
+//@                      err == old(retW("hackpadfs.Rename", 0, rW1(fs, oldname), rOM(fs, oldname), rOS(fs, oldname), rOS(fs, newname))) &&
+//@                      world() == old(worldAfterW("hackpadfs.Rename", rW1(fs, oldname), rOM(fs, oldname), rOS(fs, oldname), rOS(fs, newname))))
+//@   ensures "cross-dir" implies(old(rStatErr(fs, oldname)) == nil && oldname != newname && old(rOP(fs, oldname)) != old(rOP(fs, newname)) && old(rIsDir(fs, oldname)),
+//@                      isLinkError(err) && oldOf(err) == oldname && newOf(err) == newname && errIs(err, hackpadfs.ErrNotImplemented) && world() == old(rW1(fs, oldname)))
+//@   ensures "cross-open-error" implies(old(rStatErr(fs, oldname)) == nil && oldname != newname && old(rOP(fs, oldname)) != old(rOP(fs, newname)) && !old(rIsDir(fs, oldname)) &&
+//@                      old(rSrcErr(fs, oldname)) != nil, err == old(rSrcErr(fs, oldname)) && world() == old(rW2(fs, oldname)))
+//@   ensures "cross-create-error" implies(old(rStatErr(fs, oldname)) == nil && oldname != newname && old(rOP(fs, oldname)) != old(rOP(fs, newname)) && !old(rIsDir(fs, oldname)) &&
+//@                      old(rSrcErr(fs, oldname)) == nil && old(rDstErr(fs, oldname, newname)) != nil, err == old(rDstErr(fs, oldname, newname)))
+//@   ensures "cross-copy-error" implies(old(rStatErr(fs, oldname)) == nil && oldname != newname && old(rOP(fs, oldname)) != old(rOP(fs, newname)) && !old(rIsDir(fs, oldname)) &&
+//@                      old(rSrcErr(fs, oldname)) == nil && old(rDstErr(fs, oldname, newname)) == nil && implements(old(rDst(fs, oldname, newname)), io.Writer) &&
+//@                      old(rCopyErr(fs, oldname, newname)) != nil, err == old(rCopyErr(fs, oldname, newname)))
+//@   ensures "cross-file" implies(old(rStatErr(fs, oldname)) == nil && oldname != newname && old(rOP(fs, oldname)) != old(rOP(fs, newname)) && !old(rIsDir(fs, oldname)) &&
+//@                      old(rSrcErr(fs, oldname)) == nil && old(rDstErr(fs, oldname, newname)) == nil && implements(old(rDst(fs, oldname, newname)), io.Writer) &&
+//@                      old(rCopyErr(fs, oldname, newname)) == nil,
+//@                      err == old(retW("hackpadfs.Remove", 0, rW4(fs, oldname, newname), rOM(fs, oldname), rOS(fs, oldname))))
 //@   nopanic
